@@ -37,6 +37,8 @@ def plan(tier, seed):
     n = 1500 if tier == 'quick' else 40000
     specs = [{'kind': 'fuzz', 'version': v, 'n': n} for v in tables.versions()]
     specs.append({'kind': 'systematic'})
+    # every field row of every segment populated once with a hostile shape (also the rows a fuzzer rarely reaches)
+    specs += [{'kind': 'rows', 'version': v} for v in tables.versions()]
     specs.append({'kind': 'fuzz', 'version': None, 'n': n})
     if tier == 'thorough':
         specs.append({'kind': 'atheris', 'secs': 240})
@@ -290,6 +292,22 @@ def run_systematic(spec, rec):
     rec.sample({'kind': 'systematic', 'example': bases[0][:17]})
 
 
+def run_rows(spec, rec):
+    v = spec['version']
+    head = structref.msh_line(v, 'ADT_A01')
+    n = 0
+    for sname, rows in sorted(tables.segments(v).items()):
+        if not rows or sname == 'MSH':
+            continue
+        for r in rows:
+            if not r.num:
+                continue
+            probe(head + '\r' + sname + '|' * r.num + 'a^b&c~d', rec, ())
+            n += 1
+    rec.count('field_row_probes', n)
+    rec.sample({'kind': 'rows', 'version': v, 'example': 'PID|||||a^b&c~d'})
+
+
 def run_atheris(spec, rec):
     """coverage-guided session (thorough tier): same oracle, atheris in a forked child; absence is recorded"""
     import os
@@ -329,7 +347,7 @@ def run_atheris(spec, rec):
 
 
 def run_shard(spec, rec):
-    {'fuzz': run_fuzz, 'systematic': run_systematic, 'atheris': run_atheris}[spec['kind']](spec, rec)
+    {'fuzz': run_fuzz, 'systematic': run_systematic, 'atheris': run_atheris, 'rows': run_rows}[spec['kind']](spec, rec)
 
 
 def replay(case, rec):
